@@ -21,6 +21,9 @@ LineOK(x) == /\ x.mitStage = 7 /\ x.mitRC = 0            \* the independent clie
              \* MIT's initiator through gokrb5's HTTP wrapper (C03, positive direction): its SPNEGO token is served with the user's identity;
              \* its raw Kerberos mechanism token may be served or refused, but only with that identity and never with a panic
              /\ x.http_spnego.tried => (x.http_spnego.panic = "" /\ x.http_spnego.served /\ x.http_spnego.identity = x.who)
+             \* the credential cache MIT wrote is read by gokrb5 (C15 with a file MIT made): the default principal is the user, and a client
+             \* built from it obtains a service ticket from the simulated KDC with MIT's ticket granting ticket
+             /\ x.mitCCache.tried => (x.mitCCache.panic = "" /\ x.mitCCache.loaded /\ x.mitCCache.principal = x.who /\ x.mitCCache.clientBuilt /\ x.mitCCache.ticket)
              /\ x.http_krb5.tried => (x.http_krb5.panic = "" /\ (x.http_krb5.served => x.http_krb5.identity = x.who))
 Init == LT!Init
 Next == LT!Next
